@@ -800,6 +800,9 @@ THEOREM_CLASSES = {
     "C13_find_plain_first": "main", "C13_find_plain_none": "main", "C13_find_plain_decision_eq_lua": "main",
     "C13_format_eq_lua": "main", "C13_format_val_is_lua": "main", "C13_format_iff_restricted_lua": "corollary",
     "C13_format_restricted_is_lua": "corollary", "C13_c99_plain_d_is_decimal": "corollary",
+    "C13_format_never_unsafe": "main",
+    "C13_match_reads_only_its_arguments": "main", "C13_match_generic_instance": "definitional",
+    "C13_search_bounds_adequate": "main", "C13_format_bounds_adequate": "main", "C13_packsize_bound_adequate": "main",
     "C13_gen_facts": "tripwire",
 }
 
@@ -821,14 +824,14 @@ MANIFEST_ENTRY = {
 
 UNPROVED = [
     "string.format: the conversions of FLOATS (a A e E f g G) are differential only; C13_format_eq_lua / C13_format_val_is_lua treat the C formatter of floats as an arbitrary function (same specification, same argument on both sides). %q is not supported by the port (it stops), %p of non-pointers likewise; numeric conversions of STRING arguments (Lua coerces, the port is statically typed and stops) are outside the reference model. [c99_snprintf] (ISO C99 7.21.6.1 for d i u o x X c s) is a hand transcription of the standard, run against glibc through both real voices on every check, not proved against libc. Under the pragmas usestbsprintf / usenanoprintf the port bundles other snprintf implementations: not covered",
-    "string.format: no theorem that [c99_snprintf] is defined (never the 'undefined in ISO C' outcome) on every specification the port's checkformat accepts, and none that an item fits MAX_ITEM = 512 (integers: at most 2 + 99 characters by C99); both measured on every run only",
+    "string.format: no theorem that an item fits MAX_ITEM = 512 (integers: at most 2 + 99 characters by C99; measured on every run only); definedness of the C call is C13_format_never_unsafe",
     "float math (floor/ceil/fmod/abs/max/min on floats), integer max/min/ult/floor/ceil/tointeger (the model is Lua's definition verbatim: nothing to prove, differential only), string concatenation: differential only",
     "pattern matcher: C13_match_eq_lua_within_budget compares ONE transcription of match() under the two configurations (budget 32 vs 200, strchar vs C locale); that strpatt.nelua::_match has the control flow of lstrlib.c::match is established by reading and by the correspondence, not by a second structurally separate model",
     "DOCUMENTED LIMITATION, not a finding (DESIGN 9.2): the port's matcher has a recursion budget of 32 levels (MAX_MATCH_CALLS, error 'pattern too complex') against Lua's 200: C13_match_eq_lua_within_budget has the disjunct '= MTooComplex', C13_match_budget_is_a_limit shows it is reached where Lua succeeds (31 nested captures), the correspondence counts such cases as port_undefined (find:trap:complex); likewise position captures ('not supported yet') and the 8-capture limit of gmatch",
     "the Lua half of the matcher theorems (run_match lua_cfg with lua_do_search / lua_gsub around it) is a transcription of lstrlib.c; since this round it is run as a spec voice against the real interpreter on every find / match / gsub case of the pattern streams (not gmatch); that is testing, not proof",
-    "pattern matcher, reads: C13_match_positions_in_range checks the positions and captures on every entry of match() / goto init (any depth); the reads INSIDE one step (single-character classes, bracket classes, %b, %f, back references) are guarded by those positions plus C13_match_class_end_in_pattern / _expansion_in_subject / _balance_in_subject, but there is no instrumented semantics with one check per byte read; the AddressSanitizer stream covers that dynamically. A pattern or subject that is a non-terminated string view (pattern.data[#pattern] is read as the terminator) is outside the model",
+    "pattern matcher, reads: C13_match_positions_in_range checks the positions and captures on every entry of match() / goto init (any depth); the reads INSIDE one step (single-character classes, bracket classes, %b, %f, back references) are guarded by those positions plus C13_match_class_end_in_pattern / _expansion_in_subject / _balance_in_subject, and, per byte, by C13_match_reads_only_its_arguments: the matcher with its two read functions as parameters (coq/C13/ModelPatG.v, generated from ModelPat.v by text substitution; equal to the matcher by conversion) returns the same result for all memories that agree inside the arguments - an extensional statement (no out-of-range byte can matter), not a log of the addresses touched; that a C read which cannot matter does not happen at all is covered by the AddressSanitizer stream only; the memory.compare of a back reference is outside the parametrisation (its ranges are bounded by the capture invariant). A pattern or subject that is a non-terminated string view (pattern.data[#pattern] is read as the terminator) is outside the model",
     "pattern matcher, loop bounds: each inner loop is shown independent of its bound (C13_match_loop_bounds_adequate) and the outer fuel is never exhausted (C13_match_fuel_never_exhausted); the composition 'the matcher with every bound replaced by a larger one returns the same result' is not restated as one theorem",
-    "drivers with a loop bound that ends in a normal-looking value and no adequacy lemma (argued sufficient by inspection; the same bound is used on both sides of the equalities): lua_search / nl_search (None), gmatch_next (end of iteration), utf8 skip_cont / off_* / nl_cp_loop, packsize loops (error / trap); errors of the matcher inside find / gsub / gmatch are propagated by driver.ml glue (the Coq drivers take a matcher that can only say 'no match'), so C13_gsub_pattern_eq_lua_partial excludes malformed patterns and budget overruns by hypothesis",
+    "loop bounds: shown never to be what ends the loop (result independent of any larger bound) for the matcher's inner loops, lua_search / nl_search, both gmatch_next, the format scanners of both sides, the digit generator and the port's packsize loop (C13_search_bounds_adequate, C13_format_bounds_adequate, C13_packsize_bound_adequate); NOT done for the Lua-side packsize loop, the utf8 loops skip_cont / off_* / nl_cp_loop, gsub_fuel, gmatch_all (argued sufficient by inspection; the same bound is used on both sides of the equalities); the bounds still end in a normal-looking value rather than a distinguished Fuel constructor; errors of the matcher inside find / gsub / gmatch are propagated by driver.ml glue (the Coq drivers take a matcher that can only say 'no match'), so C13_gsub_pattern_eq_lua_partial excludes malformed patterns and budget overruns by hypothesis",
     "string.pack / string.unpack: C13_pack_unpack_format_roundtrip is over the option LIST (after parsing) for integer, string, padding, endianness and alignment options; the runtime parser of pack is tied to Lua's by C13_packsize_eq_lua_partial for packsize only, unpack's format is parsed at compile time by the preprocessor (Lua code, not modelled; the model voice parses the format in harness glue); unpack of integers against Lua: one shared definition (round trip only); float options f d n: differential only",
     "one-direction theorems (_partial): rep / rep with separator and packsize are 'Lua returns => same value'; the converse is false by design (Lua caps results at INT_MAX, numbers in formats at 2147483639, and has no option 't'; the port has neither cap: packsize('c2147483647') = 2147483647). C13_rep_val_is_repetition bounds what rep may return; nothing bounds packsize beyond the caps (the generators stay below them); codepoint: one position, port value => Lua value",
     "utf8.codes as an iterator protocol (the step function is proved), string.byte(i, j) / string.char varargs, gsub with function or table replacement, the 8-capture limit and position captures of gmatch (asserts reproduced in driver.ml only): differential only",
